@@ -128,6 +128,10 @@ class Ctx:
         if not viol and self.shortfalls:
             self.write_evidence(0, matched, error="; ".join(self.shortfalls))
             raise AnalysisError("; ".join(self.shortfalls))
+        dump = os.environ.get("VERIF_DUMP_KEYS")
+        if dump:
+            with open(dump, "w") as fh:
+                json.dump(sorted({f"{o.key}|{'holds' if o.ok else 'FAILS'}" for o in self.obs}), fh)
         self.write_evidence(len(viol), matched)
         return 1 if viol else 0
 
